@@ -52,6 +52,40 @@ def fstrings(f) -> List[str]:
     return out
 
 
+def reserved_name_verdict(prog: Program):
+    """Are the names of all generated message class attributes rejected as field names for EVERY definition kind?"""
+    py_mod, py_cls = BACKENDS["python"]
+    gm = prog.func(py_mod, f"{py_cls}.generate_msg_def")
+    emitted = set()
+    for t in fstrings(gm):
+        emitted |= set(re.findall(r"\b(type_\w+): ClassVar", t))
+    for n in walk_local(gm.node):
+        if isinstance(n, ast.Constant) and isinstance(n.value, str):
+            emitted |= set(re.findall(r"\b(type_\w+): ClassVar", n.value))
+    if len(emitted) < 4:
+        raise AnalysisError(f"anchor vanished: ClassVar attributes emitted by generate_msg_def ({emitted})")
+    afn = prog.func(PAR, "Parser.add_fields")
+    tests = [n for n in walk_local(afn.node) if isinstance(n, ast.Compare) and len(n.ops) == 1 and isinstance(n.ops[0], ast.In) and isinstance(n.comparators[0], ast.Name)
+             and any(isinstance(a, ast.If) and any(isinstance(x, ast.Raise) for x in walk_local(a)) and a.test is n for a in ancestors(n))]
+    okr, why = False, "no reserved-name test found in add_fields"
+    if tests:
+        tname = tests[0].comparators[0].id
+        from ..dataflow import definitions as _defs
+        base = None
+        for kind, rhs in _defs(afn.node, tname):
+            if kind == "assign" and isinstance(rhs, (ast.Tuple, ast.List, ast.Set)):
+                names = {x.value for x in rhs.elts if isinstance(x, ast.Constant)}
+                base = names if base is None else (base & names)
+        # additions under a condition (kind dependent) are not guaranteed: only the unconditional literal counts
+        okr = base is not None and emitted <= base
+        why = f"names always rejected: {sorted(base or [])}; generated class attributes: {sorted(emitted)}"
+        # the test itself must not be narrowed by the definition kind
+        iff = next(a for a in ancestors(tests[0]) if isinstance(a, ast.If) and a.test is tests[0] or (isinstance(a, ast.If) and tests[0] in list(ast.walk(a.test))))
+        if norm(iff.test) != norm(tests[0]):
+            okr, why = False, f"reserved-name rejection is conditional: `{norm(iff.test)}`"
+    return okr, why, afn
+
+
 def fstrings_of(node) -> List[str]:
     out = []
     for n in walk_local(node):
@@ -234,4 +268,54 @@ def run(prog: Program, chk: Check):
     gd = prog.func(BACKENDS["python"][0], "PyDefCompiler.get_descriptor")
     rec = any(is_method_call(c, "get_descriptor") and path_of(recv_of(c)) == "self" for c in calls_in(gd.node))
     X.decide(rec, fkey(gd, "alias-recursion"), where(gd), "aliases are resolved recursively to a non-alias kind", "python get_descriptor no longer resolves aliases recursively")
+    # ---- W working directory discipline ---------------------------------------------------------------------------------
+    from .. import cfg as C, flow, guards as G_
+
+    W = chk.rule("C15-W", "parse_file / parse_options restore the working directory on every normal exit (relative imports resolve against the importing file)", 2,
+                 "after a skipped repeat import from another directory the importer's remaining relative imports resolve against the wrong directory: a well-formed closure fails with FileNotFoundError")
+    for fn in ("Parser.parse_file", "Parser.parse_options"):
+        f = prog.func(PAR, fn)
+        g = C.build(f.node)
+        chd = [n for n in g.nodes if n.kind == "stmt" and n.ast is not None and any(norm(c.func) == "os.chdir" for c in calls_in(n.ast))]
+        cwdv = [path_of(n.targets[0]) for n in walk_local(f.node) if isinstance(n, ast.Assign) and isinstance(n.value, ast.Call) and norm(n.value.func) in ("pathlib.Path.cwd", "os.getcwd", "Path.cwd")]
+        into = [n for n in chd if not any(v and v in norm(n.ast) for v in cwdv)]
+        back = [n for n in chd if any(v and v in norm(n.ast) for v in cwdv)]
+        esc = flow.must_follow(g, into, back, exits=("exit",)) if into else []
+        W.decide(bool(into) and bool(back) and not esc, fkey(f, "cwd-restored"), where(f), "every normal exit after os.chdir(<file dir>) passes os.chdir(<saved cwd>)",
+                 f"{fn} can return normally without changing back to the saved working directory")
+
+    # ---- R reserved names / P descriptor preconditions -----------------------------------------------------------------------
+    R = chk.rule("C15-R", "field names that collide with generated class attributes are rejected for every definition kind; emitted descriptors satisfy their constructors' preconditions", 3,
+                 "a field named like a generated ClassVar (or a String/ByteArray of length 1) makes the generated Python module fail at import")
+    py_mod, py_cls = BACKENDS["python"]
+    okr, why, afn = reserved_name_verdict(prog)
+    R.decide(okr, fkey(afn, "reserved-names-all-kinds"), where(afn), why, "a struct may declare a field named like a generated message attribute and pass it on through field-list reuse: " + why)
+    # preconditions of descriptor constructors (assert <len> > K in validators) vs. emission sites in get_descriptor
+    vm = prog.module("pyrtma.validators")
+    pre = {}
+    for cname, ci in vm.classes.items():
+        init = ci.methods.get("__init__")
+        if init is None:
+            continue
+        for a in [x for x in init.node.body if isinstance(x, ast.Assert)]:
+            t = a.test
+            if isinstance(t, ast.Compare) and len(t.ops) == 1 and isinstance(t.ops[0], ast.Gt) and isinstance(t.comparators[0], ast.Constant) and isinstance(t.left, ast.Name):
+                pre[cname] = t.comparators[0].value
+    gdf = prog.func(py_mod, f"{py_cls}.get_descriptor")
+    gg = C.build(gdf.node)
+    ggs = flow.guard_states(gg)
+    lenp = gdf.params()[-1]
+    nchk = 0
+    for n in gg.nodes:
+        if n.kind == "stmt" and isinstance(n.ast, ast.Return) and isinstance(n.ast.value, ast.JoinedStr):
+            txt = "".join(v.value if isinstance(v, ast.Constant) else "{" + norm(v.value) + "}" for v in n.ast.value.values)
+            for cname, k in pre.items():
+                if re.search(rf"= {cname}\(\{{{lenp}\}}\)", txt):
+                    nchk += 1
+                    with G_.int_theory():
+                        bad = G_.any_path_implies(ggs.at(n), G_.parse(f"{lenp} > {k}"))
+                    R.decide(not bad, fkey(gdf, f"precondition:{cname}"), where(gdf, n.ast), f"{cname}({{{lenp}}}) is emitted only when {lenp} > {k}",
+                             f"get_descriptor can emit {cname}({lenp}) with {lenp} <= {k}, but {cname}.__init__ asserts len > {k}: the generated module raises AssertionError at import")
+    if nchk < 2:
+        raise AnalysisError(f"anchor vanished: String/ByteArray emission sites in get_descriptor ({nchk})")
     chk.units.update({"reference_edges": [f"{a}->{b}" for a, b in edges]})
